@@ -160,13 +160,13 @@ def _p_norm(p: float, critical_pairs: list = []):
             # segment crosses the x-axis
             if (y0 < 0 and y1 > 0) or (y0 > 0 and y1 < 0):
                 z = -b / slope
-                ev_x1 = (slope * x1 + b) ** (p + 1) / (slope * (p + 1))
-                ev_x0 = (slope * x0 + b) ** (p + 1) / (slope * (p + 1))
-                ev_z = (slope * z + +b) ** (p + 1) / (slope * (p + 1))
+                ev_x1 = np.abs(slope * x1 + b) ** (p + 1) / (np.abs(slope) * (p + 1))
+                ev_x0 = np.abs(slope * x0 + b) ** (p + 1) / (np.abs(slope) * (p + 1))
+                ev_z = np.abs(slope * z + +b) ** (p + 1) / (np.abs(slope) * (p + 1))
                 result += np.abs(ev_x1 + ev_x0 - 2 * ev_z)
             # segment does not cross the x-axis
             else:
-                ev_x1 = (slope * x1 + b) ** (p + 1) / (slope * (p + 1))
-                ev_x0 = (slope * x0 + b) ** (p + 1) / (slope * (p + 1))
+                ev_x1 = np.abs(slope * x1 + b) ** (p + 1) / (np.abs(slope) * (p + 1))
+                ev_x0 = np.abs(slope * x0 + b) ** (p + 1) / (np.abs(slope) * (p + 1))
                 result += np.abs(ev_x1 - ev_x0)
     return (result) ** (1.0 / p)
